@@ -139,6 +139,10 @@ def load(cdir):
                     toks.extend(sp.aliases.get(t, [t]))
                 tags = [t for t in toks if re.match(r'^(C\d+|ALL)$', t)]
                 names = [t for t in toks if not re.match(r'^(C\d+|ALL)$', t)]
+                for t in names:
+                    if re.match(r'^[A-Z][A-Z0-9_]*$', t):
+                        # an undefined alias would silently make the clause part of EVERY projection
+                        raise SystemExit('%s: tag %r is neither a property id nor an alias of this file' % (src, t))
                 cl = Clause(ckind, tags, names[0] if names else '', expr, src)
                 (sp.contracts if kind == 'contract' else sp.loops)[key].append(cl)
     return sp
